@@ -81,6 +81,9 @@ func (g *gen) element(depth int) {
 		}
 	}
 	na := g.t.Pick(4, 2, 1)
+	if g.cfg.Wide && g.t.Bool(1, 3) {
+		na = 3 + g.t.Draw(14)
+	}
 	for i := 0; i < na; i++ {
 		aid := g.nid()
 		g.events = append(g.events, simio.Event{Node: &simio.SAttr{ID: aid, Name: fmt.Sprintf("a%d", aid), Val: fmt.Sprintf("v%d", aid)}})
